@@ -86,6 +86,7 @@ def run(ctx, rep):
     _m2_m3(F, rep)
     m7(F, rep)
     m8(F, rep)
+    m10(F, rep)
     # M5: the parameters the analysis predicted with are the ones reconstruction reads back: every header field fits its width
     # (a truncated field is "accepted and then reconstructed differently"); same rule as C08/P3
     from . import ub
@@ -169,6 +170,22 @@ def m8(F, rep, rule="M8"):
                 ok = False
                 why.append("%s at %s is not the result of the reconstruction" % (what, b.where(pb)))
     rep.add(rule, "ok-only-through-reconstruction", ok, where, "; ".join(why) if why else "%d result site(s), each behind decode_mispredictions(..)? and returning its payload" % len(prods))
+
+
+def m10(F, rep, rule="M10"):
+    """The reconstruction decides "this is the last block" by running out of input; the analysis tells predict_block the
+    same thing through its last_block argument, and a block flagged last leaves its token count implicit.  The flag must
+    therefore be exactly "this is the final element of the block list" — any wider notion (the last block with tokens, the
+    last Huffman block ...) drops a count the reconstruction needs.  ⚠ enumerated forms: i == len-1, i+1 == len."""
+    b = F.body("preflate_rs::process::predict_blocks")
+    where = "%s:%s" % (b.file, b.line)
+    calls = [(bb, t) for bb, t in b.calls() if strip_generics(callee_def(t)).endswith("TokenPredictor::predict_block")]
+    LEN = r"len\(var\(blocks\)\)"
+    forms = [r"^Eq\((.+), Sub\(%s, K1\)(\.0)?\)$" % LEN, r"^Eq\(Sub\(%s, K1\)(\.0)?, (.+)\)$" % LEN,
+             r"^Eq\(Add\((.+), K1\)(\.0)?, %s\)$" % LEN, r"^Eq\(%s, Add\((.+), K1\)(\.0)?\)$" % LEN]
+    ds = [flow.describe(b, t["args"][3], names=True) if len(t["args"]) == 4 else "?" for bb, t in calls]
+    ok = bool(calls) and all(any(re.match(f, d) for f in forms) for d in ds)
+    rep.add(rule, "last-block-flag=final-element", ok, where, "predict_block(.., last_block = %s)" % ds)
 
 
 def _m2_m3(F, rep):
